@@ -1,6 +1,7 @@
 package spine
 
 import (
+	"errors"
 	"sync"
 	"sync/atomic"
 	"time"
@@ -86,6 +87,14 @@ func (c *HeartbeatManager) StartHeartbeat() error {
 	timeout, err := c.heartBeatTimeout.GetTimeDuration()
 	if err != nil {
 		return err
+	}
+
+	// without a local feature there is nothing to update
+	c.mux.Lock()
+	hasFeature := c.localFeature != nil
+	c.mux.Unlock()
+	if !hasFeature {
+		return errors.New("the local device diagnosis server feature is not set")
 	}
 
 	// stopping and restarting has to be one step, otherwise concurrent calls
